@@ -1,0 +1,22 @@
+//go:build verif
+
+package common
+
+import "sync/atomic"
+
+var verifHook atomic.Value // of func(string, ...any)
+
+// SetVerifHook installs (or, with nil, removes) the callback that is invoked at every VerifPoint.
+func SetVerifHook(h func(point string, args ...any)) {
+	if h == nil {
+		h = func(string, ...any) {}
+	}
+	verifHook.Store(h)
+}
+
+// VerifPoint marks an interleaving point for the verification harness.
+func VerifPoint(point string, args ...any) {
+	if h, ok := verifHook.Load().(func(string, ...any)); ok && h != nil {
+		h(point, args...)
+	}
+}
